@@ -87,7 +87,7 @@ theorem qwf_current_nil {q : Q} {done rs B} (h : QWF q.segs q.maxSeg done [] rs 
 /-- `Queue.Advance` on an empty queue changes nothing observable -/
 theorem qwf_advance_nil {q : Q} {done rs B} (h : QWF q.segs q.maxSeg done [] rs B) :
     ∃ done', QWF q.advance.segs q.advance.maxSeg done' [] [] B ∧ q.advance.maxSize = q.maxSize ∧
-      q.advance.maxSeg = q.maxSeg := by
+      q.advance.maxSeg = q.maxSeg ∧ (done' = done ∨ done' = []) := by
   obtain ⟨hd, t, hsegs, hwf, htail, hemp⟩ := h.shape
   obtain ⟨hrs, hsz⟩ := hemp rfl
   subst hrs
@@ -100,9 +100,9 @@ theorem qwf_advance_nil {q : Q} {done rs B} (h : QWF q.segs q.maxSeg done [] rs 
   rw [hq, h1, h2, h3]
   by_cases hfull : hd.full = true
   · rw [if_pos hfull]
-    exact ⟨[], qwf_fresh _ _ h.maxSeg8 h.room8, rfl, rfl⟩
+    exact ⟨[], qwf_fresh _ _ h.maxSeg8 h.room8, rfl, rfl, Or.inr rfl⟩
   · rw [if_neg hfull]
-    refine ⟨done, ⟨⟨hd, [], rfl, hwf, trivial, fun _ => ⟨rfl, hsz⟩⟩, h.maxSeg8, ?_⟩, rfl, rfl⟩
+    refine ⟨done, ⟨⟨hd, [], rfl, hwf, trivial, fun _ => ⟨rfl, hsz⟩⟩, h.maxSeg8, ?_⟩, rfl, rfl, Or.inl rfl⟩
     intro x hx
     exact h.room x (by rw [hsegs]; exact hx)
 
@@ -578,6 +578,314 @@ theorem qwf_reopen {q : Q} {done r rs B} (h : QWF q.segs q.maxSeg done r rs B) (
   · exact h.room hd (by simp [hsegs])
   · obtain ⟨y, hy, rfl⟩ := List.mem_map.mp hx
     exact h.room y (by simp [hsegs, hy])
+
+
+
+theorem QWF.mono {segs g done r rs B B'} (h : QWF segs g done r rs B) (hB : B' ≤ B) : QWF segs g done r rs B' :=
+  ⟨h.shape, h.maxSeg8, fun x hx => by have := h.room x hx; omega⟩
+
+/-- the three outcomes of `Recovered`, as a shape -/
+theorem Recovered.shape {t : Seg} {done rest : List Bytes} {b : Bytes} (h : Recovered t done rest [b]) :
+    ∃ d0 r0, SegWF t d0 r0 ∧
+      ((d0 = done ∧ r0 = rest) ∨ (d0 = done ∧ r0 = rest ++ [b]) ∨ (d0 = [] ∧ r0 = done ++ rest)) := by
+  cases h with
+  | absent h => exact ⟨done, rest, h, Or.inl ⟨rfl, rfl⟩⟩
+  | complete h => exact ⟨done, rest ++ [b], h, Or.inr (Or.inl ⟨rfl, rfl⟩)⟩
+  | replay h => exact ⟨[], done ++ rest, h, Or.inr (Or.inr ⟨rfl, rfl⟩)⟩
+
+theorem shape_size {t s : Seg} {done rest d0 r0 : List Bytes} {b : Bytes} (hs : SegWF s done rest) (ht : SegWF t d0 r0)
+    (hc : (d0 = done ∧ r0 = rest) ∨ (d0 = done ∧ r0 = rest ++ [b]) ∨ (d0 = [] ∧ r0 = done ++ rest)) :
+    t.size ≤ s.size + 8 + b.length := by
+  have h1 := hs.size_eq; have h2 := ht.size_eq
+  rcases hc with ⟨rfl, rfl⟩ | ⟨rfl, rfl⟩ | ⟨rfl, rfl⟩ <;> simp [encRecs_append] at * <;> omega
+
+
+/-- `Open` when the head and the segments `tp` are intact and the LAST file has been
+    recovered into `t'` (holding `r0'`, possibly nothing) -/
+theorem qOpen_tail_recovered (m g B : Nat) (hd : Seg) (tp : List Seg) (t' : Seg) (torn : Bytes)
+    (done r : List Bytes) (rsp : List (List Bytes)) (r0' : List Bytes)
+    (hwf : SegWF hd done r) (htp : TailWF tp rsp) (ht' : SegWF t' [] r0')
+    (hnew : newSeg verifyAll g torn = some t') (h8 : 8 ≤ g) (hm : ¬ m < 2 * g)
+    (hroom : ∀ x ∈ hd :: (tp ++ [t']), x.size + B < 2^63) :
+    ∃ q', qOpen verifyAll m g (hd.file :: (tp.map Seg.file ++ [torn])) = some q' ∧ q'.maxSeg = g ∧ q'.maxSize = m ∧
+      ∃ done' r' rs', QWF q'.segs g done' r' rs' B ∧ r' ++ rs'.flatten = r ++ rsp.flatten ++ r0' ∧
+        (done' = done ∨ (done' = [] ∧ r = [])) := by
+  obtain ⟨hmap, htl⟩ := mapM_newSeg_tail g tp rsp htp.toTailWF0
+  have hlast : [torn].mapM (newSeg verifyAll g) = some [t'] := by
+    simp only [List.mapM_cons, List.mapM_nil, hnew]; rfl
+  have hmap2 := mapM_append_some _ _ _ _ _ hmap hlast
+  have hfiles : (hd.file :: (tp.map Seg.file ++ [torn])).mapM (newSeg verifyAll g)
+      = some (reseat g hd :: (tp.map (reseat g) ++ [t'])) := by
+    simp only [List.mapM_cons, newSeg_reseat g hwf, hmap2]; rfl
+  have htl2 : TailWF0 (tp.map (reseat g) ++ [t']) (rsp ++ [r0']) := by
+    rw [TailWF0_append _ _ _ _ (by simp [htp.length_eq])]
+    exact ⟨htl, ht', trivial⟩
+  obtain ⟨q', h1, h2, h3, done', r', rs', h4, h5, h6⟩ :=
+    qOpen_core m g B _ _ _ done r (rsp ++ [r0']) hfiles (reseat_wf g hwf) htl2 h8 hm (by
+      intro x hx
+      rcases List.mem_cons.mp hx with rfl | hx
+      · exact hroom hd (by simp)
+      · rcases List.mem_append.mp hx with hx | hx
+        · obtain ⟨y, hy, rfl⟩ := List.mem_map.mp hx
+          exact hroom y (by simp [hy])
+        · simp at hx; subst hx; exact hroom x (by simp))
+  exact ⟨q', h1, h2, h3, done', r', rs', h4, by rw [h5]; simp, h6⟩
+
+
+/-- What a reopen after a crash may do to the abstract content `done ++ R` (consumed
+    records still on disk, then the unconsumed ones): the in-flight entry is there
+    (`extra = [b]`) or not, and the queue resumes at some position `j` of
+    `done ++ R ++ extra` with `done'` counted as consumed — never beyond the old head
+    position plus `slack` (1 for a crash inside an advance), so nothing unconsumed is lost. -/
+def CrashOutcome (done R : List Bytes) (b : Bytes) (slack : Nat) (done' Rm : List Bytes) : Prop :=
+  ∃ j extra, (extra = [] ∨ extra = [b]) ∧ j + done'.length ≤ done.length + slack ∧
+    done' ++ Rm = (done ++ R ++ extra).drop j
+
+theorem outcome_of_core {done R : List Bytes} {b : Bytes} {done' Rm d0 r0 rest0 extra : List Bytes}
+    (hex : extra = [] ∨ extra = [b])
+    (hd : done' = d0 ∨ (done' = [] ∧ r0 = []))
+    (hRm : Rm = r0 ++ rest0)
+    (hcase : (d0 = done ∧ r0 ++ rest0 = R ++ extra) ∨ (d0 = [] ∧ r0 ++ rest0 = done ++ R ∧ extra = [])) :
+    CrashOutcome done R b 0 done' Rm := by
+  rcases hcase with ⟨rfl, hR⟩ | ⟨rfl, hR, rfl⟩
+  · rcases hd with rfl | ⟨rfl, hr0⟩
+    · exact ⟨0, extra, hex, by simp, by rw [hRm, hR]; simp⟩
+    · exact ⟨d0.length, extra, hex, by simp, by rw [hRm, hR]; simp⟩
+  · have : done' = [] := by rcases hd with h | ⟨h, _⟩ <;> exact h
+    subst this
+    exact ⟨0, [], Or.inl rfl, by simp, by rw [hRm, hR]; simp⟩
+
+
+theorem setLastB_append_one (a : List Bytes) (x y : Bytes) : setLastB (a ++ [x]) y = a ++ [y] := by
+  simp [setLastB]
+
+/-- **Crash inside `Queue.Append`, then reopen** — every cut that is not footer-like. -/
+theorem qwf_crashAppend {q : Q} {done r rs B} (h : QWF q.segs q.maxSeg done r rs B)
+    (hm : ¬ q.maxSize < 2 * q.maxSeg) (b : Bytes) (k : Nat) (hB : b.length + 16 ≤ B)
+    (hgood : ∀ o, (q.crashAppendFiles b k).2 = some o → o.footerLike = false) :
+    ∃ q', qOpen verifyAll q.maxSize q.maxSeg (q.crashAppendFiles b k).1 = some q' ∧
+      q'.maxSeg = q.maxSeg ∧ q'.maxSize = q.maxSize ∧
+      ∃ done' r' rs', QWF q'.segs q.maxSeg done' r' rs' (B - (b.length + 16)) ∧
+        CrashOutcome done (r ++ rs.flatten) b 0 done' (r' ++ rs'.flatten) := by
+  obtain ⟨hd, t, hsegs, hwf, htail, hemp⟩ := h.shape
+  have h8 := h.maxSeg8
+  have hB8 := h.room8
+  have hmono := h.mono (Nat.sub_le B (b.length + 16))
+  -- no write: a plain reopen
+  have plain : ∀ files, files = q.files →
+      ∃ q', qOpen verifyAll q.maxSize q.maxSeg files = some q' ∧
+        q'.maxSeg = q.maxSeg ∧ q'.maxSize = q.maxSize ∧
+        ∃ done' r' rs', QWF q'.segs q.maxSeg done' r' rs' (B - (b.length + 16)) ∧
+          CrashOutcome done (r ++ rs.flatten) b 0 done' (r' ++ rs'.flatten) := by
+    intro files hf
+    rw [hf]
+    obtain ⟨q', h1, h2, h3, done', r', rs', h4, h5, h6⟩ := qwf_reopen hmono hm
+    refine ⟨q', h1, h2, h3, done', r', rs', h4, ?_⟩
+    exact outcome_of_core (d0 := done) (r0 := r) (rest0 := rs.flatten) (extra := []) (Or.inl rfl) h6 (by rw [h5])
+      (Or.inl ⟨rfl, by simp⟩)
+  unfold Q.crashAppendFiles at hgood ⊢
+  by_cases hfull : q.total + b.length > q.maxSize
+  · simp only [hfull, if_true]; exact plain _ rfl
+  · simp only [hfull, if_false] at hgood ⊢
+    clear plain
+    by_cases ht : t = []
+    · -- single segment
+      subst ht
+      have hrs : rs = [] := by cases rs with
+        | nil => rfl
+        | cons _ _ => cases htail
+      subst hrs
+      have hroom := h.room hd (by simp [hsegs])
+      simp only [hsegs, List.getLast?_singleton] at hgood ⊢
+      by_cases hsf : hd.size > hd.maxSize
+      · -- rollover: the torn write is in a fresh segment file
+        have hrne : r ≠ [] := by intro hr; have := (hemp hr).2; omega
+        have happ : hd.append b = .error .segFull := by simp [Seg.append, hsf]
+        obtain ⟨f, hf, hfw, hfs⟩ := append_fresh q.maxSeg b h8 (by omega)
+        have hf' : (⟨be64 0, 0, q.maxSeg⟩ : Seg).append b = .ok f := hf
+        simp only [happ, hf'] at hgood ⊢
+        have hnf := hgood _ rfl
+        obtain ⟨t', hnew, hrec⟩ := torn_append_recovers q.maxSeg (fresh_wf q.maxSeg) b hf
+          (by simp [freshS, Seg.size, be64_length]; omega) k hnf
+        obtain ⟨d0, r0, hw0, hc⟩ := hrec.shape
+        have hd0 : d0 = [] := by rcases hc with ⟨h1, _⟩ | ⟨h1, _⟩ | ⟨h1, _⟩ <;> exact h1
+        subst hd0
+        have hsz := shape_size (b := b) (fresh_wf q.maxSeg) hw0 hc
+        have hfsz : (freshS q.maxSeg).size = 8 := by simp [freshS, Seg.size, be64_length]
+        rw [hfsz] at hsz
+        obtain ⟨q', h1, h2, h3, done', r', rs', h4, h5, h6⟩ :=
+          qOpen_tail_recovered q.maxSize q.maxSeg (B - (b.length + 16)) hd [] t' _ done r [] r0 hwf trivial hw0
+            hnew h8 hm (by
+              intro x hx
+              simp at hx
+              rcases hx with rfl | rfl
+              · omega
+              · omega)
+        refine ⟨q', by simpa [Q.files, hsegs, freshS] using h1, h2, h3, done', r', rs', h4, ?_⟩
+        have hex : r0 = [] ∨ r0 = [b] := by
+          rcases hc with ⟨_, h2⟩ | ⟨_, h2⟩ | ⟨_, h2⟩ <;> simp [h2]
+        exact outcome_of_core (d0 := done) (r0 := r) (rest0 := r0) (extra := r0) hex h6 (by rw [h5]; simp)
+          (Or.inl ⟨rfl, by simp⟩)
+      · obtain ⟨hd', happ, hwf', _⟩ := append_wf hwf b hsf (by omega)
+        simp only [happ] at hgood ⊢
+        have hnf := hgood _ rfl
+        obtain ⟨t', hnew, hrec⟩ := torn_append_recovers q.maxSeg hwf b happ (by omega) k hnf
+        obtain ⟨d0, r0, hw0, hc⟩ := hrec.shape
+        have hsz := shape_size (b := b) hwf hw0 hc
+        have hfiles : [tornWrite hd.file hd'.file k].mapM (newSeg verifyAll q.maxSeg) = some [t'] := by
+          simp only [List.mapM_cons, List.mapM_nil, hnew]; rfl
+        obtain ⟨q', h1, h2, h3, done', r', rs', h4, h5, h6⟩ :=
+          qOpen_core q.maxSize q.maxSeg (B - (b.length + 16)) _ t' [] d0 r0 [] hfiles hw0 trivial h8 hm (by
+            intro x hx; simp at hx; subst hx; omega)
+        refine ⟨q', by simpa [Q.files, hsegs, setLastB] using h1, h2, h3, done', r', rs', h4, ?_⟩
+        rcases hc with ⟨rfl, rfl⟩ | ⟨rfl, rfl⟩ | ⟨rfl, rfl⟩
+        · exact outcome_of_core (d0 := d0) (r0 := r0) (rest0 := []) (extra := []) (Or.inl rfl) h6 (by rw [h5]; simp)
+            (Or.inl ⟨rfl, by simp⟩)
+        · exact outcome_of_core (d0 := d0) (r0 := r ++ [b]) (rest0 := []) (extra := [b]) (Or.inr rfl) h6
+            (by rw [h5]; simp) (Or.inl ⟨rfl, by simp⟩)
+        · exact outcome_of_core (d0 := []) (r0 := done ++ r) (rest0 := []) (extra := []) (Or.inl rfl) h6
+            (by rw [h5]; simp) (Or.inr ⟨rfl, by simp, rfl⟩)
+    · -- several segments: the last one is written
+      obtain ⟨ti, tl, rsi, rl, ht', hrs', hti, htl, hrl, hlen⟩ := htail.split_last ht
+      subst ht' hrs'
+      have hroomtl := h.room tl (by simp [hsegs])
+      have hrne : r ≠ [] := by intro hr; have := (hemp hr).1; simp at this
+      have hlast : q.segs.getLast? = some tl := by
+        rw [hsegs, show hd :: (ti ++ [tl]) = (hd :: ti) ++ [tl] by simp]; exact getLast?_append_one _ _
+      have hfilesq : q.files = hd.file :: (ti.map Seg.file ++ [tl.file]) := by simp [Q.files, hsegs]
+      simp only [hlast] at hgood ⊢
+      by_cases hsf : tl.size > tl.maxSize
+      · have happ : tl.append b = .error .segFull := by simp [Seg.append, hsf]
+        obtain ⟨f, hf, hfw, hfs⟩ := append_fresh q.maxSeg b h8 (by omega)
+        have hf' : (⟨be64 0, 0, q.maxSeg⟩ : Seg).append b = .ok f := hf
+        simp only [happ, hf'] at hgood ⊢
+        have hnf := hgood _ rfl
+        obtain ⟨t', hnew, hrec⟩ := torn_append_recovers q.maxSeg (fresh_wf q.maxSeg) b hf
+          (by simp [freshS, Seg.size, be64_length]; omega) k hnf
+        obtain ⟨d0, r0, hw0, hc⟩ := hrec.shape
+        have hd0 : d0 = [] := by rcases hc with ⟨h1, _⟩ | ⟨h1, _⟩ | ⟨h1, _⟩ <;> exact h1
+        subst hd0
+        have hsz := shape_size (b := b) (fresh_wf q.maxSeg) hw0 hc
+        have hfsz : (freshS q.maxSeg).size = 8 := by simp [freshS, Seg.size, be64_length]
+        rw [hfsz] at hsz
+        obtain ⟨q', h1, h2, h3, done', r', rs', h4, h5, h6⟩ :=
+          qOpen_tail_recovered q.maxSize q.maxSeg (B - (b.length + 16)) hd (ti ++ [tl]) t' _ done r (rsi ++ [rl]) r0
+            hwf htail hw0 hnew h8 hm (by
+              intro x hx
+              simp at hx
+              rcases hx with rfl | hx | rfl | rfl
+              · have := h.room x (by simp [hsegs]); omega
+              · have := h.room x (by simp [hsegs, hx]); omega
+              · omega
+              · omega)
+        refine ⟨q', by simpa [hfilesq, freshS] using h1, h2, h3, done', r', rs', h4, ?_⟩
+        have hex : r0 = [] ∨ r0 = [b] := by
+          rcases hc with ⟨_, h2⟩ | ⟨_, h2⟩ | ⟨_, h2⟩ <;> simp [h2]
+        exact outcome_of_core (d0 := done) (r0 := r) (rest0 := (rsi ++ [rl]).flatten ++ r0) (extra := r0) hex h6
+          (by rw [h5]; simp) (Or.inl ⟨rfl, by simp⟩)
+      · obtain ⟨tl', happ, hwf', _⟩ := append_wf htl b hsf (by omega)
+        simp only [happ] at hgood ⊢
+        have hnf := hgood _ rfl
+        obtain ⟨t', hnew, hrec⟩ := torn_append_recovers q.maxSeg htl b happ (by omega) k hnf
+        obtain ⟨d0, r0, hw0, hc⟩ := hrec.shape
+        have hd0 : d0 = [] := by rcases hc with ⟨h1, _⟩ | ⟨h1, _⟩ | ⟨h1, _⟩ <;> exact h1
+        subst hd0
+        have hsz := shape_size (b := b) htl hw0 hc
+        obtain ⟨q', h1, h2, h3, done', r', rs', h4, h5, h6⟩ :=
+          qOpen_tail_recovered q.maxSize q.maxSeg (B - (b.length + 16)) hd ti t' _ done r rsi r0
+            hwf hti hw0 hnew h8 hm (by
+              intro x hx
+              simp at hx
+              rcases hx with rfl | hx | rfl
+              · have := h.room x (by simp [hsegs]); omega
+              · have := h.room x (by simp [hsegs, hx]); omega
+              · omega)
+        have hfl : setLastB q.files (tornWrite tl.file tl'.file k)
+            = hd.file :: (ti.map Seg.file ++ [tornWrite tl.file tl'.file k]) := by
+          rw [hfilesq, show hd.file :: (ti.map Seg.file ++ [tl.file]) = (hd.file :: ti.map Seg.file) ++ [tl.file] by simp,
+            setLastB_append_one]; simp
+        refine ⟨q', by rw [hfl]; exact h1, h2, h3, done', r', rs', h4, ?_⟩
+        rcases hc with ⟨_, hr0⟩ | ⟨_, hr0⟩ | ⟨_, hr0⟩
+        · exact outcome_of_core (d0 := done) (r0 := r) (rest0 := rsi.flatten ++ rl) (extra := []) (Or.inl rfl) h6
+            (by rw [h5, hr0]; simp) (Or.inl ⟨rfl, by simp⟩)
+        · exact outcome_of_core (d0 := done) (r0 := r) (rest0 := rsi.flatten ++ (rl ++ [b])) (extra := [b]) (Or.inr rfl) h6
+            (by rw [h5, hr0]; simp) (Or.inl ⟨rfl, by simp⟩)
+        · exact outcome_of_core (d0 := done) (r0 := r) (rest0 := rsi.flatten ++ rl) (extra := []) (Or.inl rfl) h6
+            (by rw [h5, hr0]; simp) (Or.inl ⟨rfl, by simp⟩)
+
+
+theorem tornWrite_self (f : Bytes) (k : Nat) : tornWrite f f k = f := by
+  simp [tornWrite]
+
+theorem RecoveredAdv.shape {t : Seg} {done : List Bytes} {x : Bytes} {r : List Bytes} (h : RecoveredAdv t done x r) :
+    ∃ d0 r0, SegWF t d0 r0 ∧
+      ((d0 = done ∧ r0 = x :: r) ∨ (d0 = done ++ [x] ∧ r0 = r) ∨ (d0 = [] ∧ r0 = done ++ x :: r)) := by
+  cases h with
+  | absent h => exact ⟨_, _, h, Or.inl ⟨rfl, rfl⟩⟩
+  | complete h => exact ⟨_, _, h, Or.inr (Or.inl ⟨rfl, rfl⟩)⟩
+  | replay h => exact ⟨_, _, h, Or.inr (Or.inr ⟨rfl, rfl⟩)⟩
+
+/-- **Crash inside `Queue.Advance` (footer rewrite), then reopen** — every cut that
+    is not footer-like. -/
+theorem qwf_crashAdv {q : Q} {done r rs B} (h : QWF q.segs q.maxSeg done r rs B)
+    (hm : ¬ q.maxSize < 2 * q.maxSeg) (k : Nat)
+    (hgood : ∀ o, (q.crashAdvFiles verifyAll k).2 = some o → o.footerLike = false) :
+    ∃ q', qOpen verifyAll q.maxSize q.maxSeg (q.crashAdvFiles verifyAll k).1 = some q' ∧
+      q'.maxSeg = q.maxSeg ∧ q'.maxSize = q.maxSize ∧
+      ∃ done' r' rs', QWF q'.segs q.maxSeg done' r' rs' B ∧
+        ∃ j, j + done'.length ≤ done.length + 1 ∧
+          done' ++ (r' ++ rs'.flatten) = (done ++ (r ++ rs.flatten)).drop j := by
+  obtain ⟨hd, t, hsegs, hwf, htail, hemp⟩ := h.shape
+  have h8 := h.maxSeg8
+  have hnew := newSeg_reseat q.maxSeg hwf
+  have hws := reseat_wf q.maxSeg hwf
+  unfold Q.crashAdvFiles at hgood ⊢
+  simp only [hsegs, hnew] at hgood ⊢
+  cases r with
+  | nil =>
+    -- nothing to advance past: no write
+    have hadv := advance_wf_nil hws
+    have hsame : tornWrite hd.file (reseat q.maxSeg hd).advance.1.file k = hd.file := by
+      rw [hadv]; exact tornWrite_self _ _
+    rw [hsame]
+    have hf : setHead q.files hd.file = q.files := by simp [Q.files, hsegs, setHead]
+    rw [hf]
+    obtain ⟨q', h1, h2, h3, done', r', rs', h4, h5, h6⟩ := qwf_reopen h hm
+    refine ⟨q', h1, h2, h3, done', r', rs', h4, ?_⟩
+    rcases h6 with rfl | ⟨rfl, _⟩
+    · exact ⟨0, by simp, by rw [h5]; simp⟩
+    · exact ⟨done.length, by simp, by rw [h5]; simp⟩
+  | cons x r' =>
+    have hnf := hgood _ rfl
+    have hfile : (reseat q.maxSeg hd).file = hd.file := rfl
+    obtain ⟨t', hnewt, hrec⟩ := torn_advance_recovers q.maxSeg hws k (by rw [hfile]; exact hnf)
+    rw [hfile] at hnewt
+    obtain ⟨d0, r0, hw0, hc⟩ := hrec.shape
+    obtain ⟨hmap, htl⟩ := mapM_newSeg_tail q.maxSeg t rs htail.toTailWF0
+    have hfiles : (setHead q.files (tornWrite hd.file (reseat q.maxSeg hd).advance.1.file k)).mapM
+        (newSeg verifyAll q.maxSeg) = some (t' :: t.map (reseat q.maxSeg)) := by
+      simp only [Q.files, hsegs, List.map_cons, setHead, List.mapM_cons, hnewt, hmap]; rfl
+    have hsz : t'.size ≤ hd.size := by
+      have h1 := hwf.size_eq; have h2 := hw0.size_eq
+      rcases hc with ⟨rfl, rfl⟩ | ⟨rfl, rfl⟩ | ⟨rfl, rfl⟩ <;> simp [encRecs_append] at * <;> omega
+    obtain ⟨q', h1, h2, h3, done', r'', rs', h4, h5, h6⟩ :=
+      qOpen_core q.maxSize q.maxSeg B _ t' _ d0 r0 rs hfiles hw0 htl h8 hm (by
+        intro y hy
+        rcases List.mem_cons.mp hy with rfl | hy
+        · have := h.room hd (by simp [hsegs]); omega
+        · obtain ⟨z, hz, rfl⟩ := List.mem_map.mp hy
+          exact h.room z (by simp [hsegs, hz]))
+    refine ⟨q', h1, h2, h3, done', r'', rs', h4, ?_⟩
+    rcases hc with ⟨rfl, rfl⟩ | ⟨rfl, rfl⟩ | ⟨rfl, rfl⟩
+    · rcases h6 with rfl | ⟨_, hr0⟩
+      · exact ⟨0, by simp, by rw [h5]; simp⟩
+      · simp at hr0
+    · rcases h6 with rfl | ⟨rfl, rfl⟩
+      · exact ⟨0, by simp, by rw [h5]; simp⟩
+      · exact ⟨done.length + 1, by simp, by rw [h5]; simp [List.drop_append]⟩
+    · have : done' = [] := by rcases h6 with h | ⟨h, _⟩ <;> exact h
+      subst this
+      exact ⟨0, by simp, by rw [h5]; simp⟩
 
 
 end Influx.DQ
